@@ -12,7 +12,7 @@ LEVEL = "fault_enumeration"
 RULE = ("one case = one faulty file = one fault (truncate at every length, mutate every position over byte classes incl. FLAG_REF toggle and "
         "type codes, insert, delete, overwrite every 32-bit count field with adversarial values) applied by Faults.tla to a base file of a "
         "version class (generated minimal files for 2.7/3.3/3.8/3.12 and small real files); load_module runs in a forked child with a 1 GiB "
-        "address-space limit, a 5 s alarm and an audit hook. Accepted outcomes: the 7-tuple or ImportError, no forbidden audit event, no write; "
+        "address-space limit, a 30 s alarm (20 s counts as not prompt) and an audit hook. Accepted outcomes: the 7-tuple or ImportError, no forbidden audit event, no write; "
         "when the strict reference reader says ok(v) and the header is intact, a returned tuple must carry v. "
         "non-trivial = fault inside the marshal payload; distinct by file bytes")
 
@@ -77,6 +77,46 @@ def run(tier, rep):
                        ("huge-string", bytes(bytearray([85, 13, 13, 10] + [0] * 12)) + b"s\xff\xff\xff\x7f" + b"x" * 60),
                        ("ref-loop", bytes(bytearray([85, 13, 13, 10] + [0] * 12)) + b"\xdb\x01\x00\x00\x00r\x00\x00\x00\x00" + b"\x00" * 50)):
         faulty.append({"id": "hostile:" + name, "base": "hostile", "kind": "hostile", "pos": -1, "val": [], "bytes": list(bytearray(data))})
+    # header sweep: every magic xdis knows (and its neighbours) with well-formed and ill-formed bytes 3-4, followed by junk
+    import random
+    rnd = random.Random(lib.seed())
+    dm = lib.fresh("c11-magics")
+    lib.run_py(lib.MAIN_HOST, lib.HARNESS / "list_magics.py", [dm / "magics.json"])
+    known = json.loads((dm / "magics.json").read_text())
+    cand = set(known)
+    for m in known:
+        cand.update(((m + 1) % 65536, (m - 1) % 65536))
+    cand.update(rnd.randrange(65536) for _ in range(60))
+    tails = [[13, 10], [0, 0], [255, 255]] if not quick else [[13, 10], [10, 13]]
+    junk = [0] * 12 + [227, 0, 0, 0, 0] + [99] * 50
+    for m in sorted(cand):
+        for tl in tails:
+            faulty.append({"id": "magic:%d:%02x%02x" % (m, tl[0], tl[1]), "base": "magic-sweep", "kind": "hostile", "pos": -1, "val": [],
+                           "bytes": [m & 255, m >> 8] + tl + junk})
+    # the Dropbox-2.5 path (magic 62135 is decrypted by its own loader): real file mutated, and garbage after the magic
+    dbx = sorted(glob.glob(str(lib.REPO / "test" / "bytecode_2.5dropbox" / "*.pyc")), key=os.path.getsize)[:1]
+    for f in dbx:
+        data = list(bytearray(open(f, "rb").read()))
+        step = 11 if quick else 3
+        for i in range(4, len(data), step):
+            for b in (0, 255, data[i] ^ 128):
+                if b != data[i]:
+                    faulty.append({"id": "dropbox:mutate:%d:%02x" % (i, b), "base": "dropbox", "kind": "hostile", "pos": i, "val": [b],
+                                   "bytes": data[:i] + [b] + data[i + 1:]})
+        for k in range(0, len(data), 7 if quick else 2):
+            faulty.append({"id": "dropbox:truncate:%d" % k, "base": "dropbox", "kind": "hostile", "pos": k, "val": [], "bytes": data[:k]})
+    faulty.append({"id": "dropbox:garbage", "base": "dropbox", "kind": "hostile", "pos": -1, "val": [], "bytes": [183, 242, 13, 10] + [rnd.randrange(256) for _ in range(200)]})
+    # the native fast path on a real file of the host's own version
+    samples = bcrun.ensure_samples(90)
+    nat = sorted((f for f in samples.get(lib.MAIN_HOST, []) if "lib_" in f), key=os.path.getsize)[:1]
+    for f in nat:
+        data = list(bytearray(open(f, "rb").read()))
+        step = 5 if quick else 1
+        for i in range(16, len(data), step):
+            for b in ((data[i] ^ 128), 255, 0) if quick else ((data[i] ^ 128), 255, 0, 127, 40, 114, 231, 99):
+                if b != data[i]:
+                    faulty.append({"id": "native:mutate:%d:%02x" % (i, b), "base": "native-real-file", "kind": "hostile", "pos": i, "val": [b],
+                                   "bytes": data[:i] + [b] + data[i + 1:]})
     rep.evaluations += len(faulty)
     # xdis on every faulty file
     wjobs, outs = [], []
@@ -135,7 +175,7 @@ def run(tier, rep):
             rj("C11.audit:%s:%s" % (r["audit"][0].split(":")[0], base), {"id": x["id"], "events": r["audit"]}, x)
         if r.get("stdout"):
             rep.extra["stdout_writes"] = rep.extra.get("stdout_writes", 0) + 1
-        if r.get("wall", 0) > 4.5:
+        if r.get("wall", 0) > 20:
             rj("C11.slow:%s" % base, {"id": x["id"], "wall": r["wall"]}, x)
         if oc == "ImportError" and r.get("cause") == "RecursionError":
             rep.extra["recursion_guard_fired"] = rep.extra.get("recursion_guard_fired", 0) + 1
@@ -156,7 +196,7 @@ def run(tier, rep):
     rep.extra["outcomes"] = outcomes
     rep.sample({"id": faulty[10]["id"], "bytes": faulty[10]["bytes"][:40], "outcome": res[faulty[10]["id"]]["outcome"]})
     rep.sample({"bases": [b["id"] for b in bs], "faults": len(faulty)})
-    rep.assumptions += ["memory and time are measured (1 GiB RLIMIT_AS, 5 s alarm), not modelled",
+    rep.assumptions += ["memory and time are measured (1 GiB RLIMIT_AS, 30 s alarm), not modelled",
                         "RecursionError as the cause inside ImportError is accepted (the interpreter's guard fired; counted in evidence)",
                         "audit events: imports of standard-library/xdis modules that xdis itself performs are not 'from the file'"]
 
